@@ -256,13 +256,31 @@ impl<'s, M: Matcher, S: Sink> MultiLine<'s, M, S> {
                 range
             }
             Some(mat) => {
-                let line = lines::locate(
-                    self.slice,
-                    self.config.line_term.as_byte(),
-                    mat,
-                );
+                let line_term = self.config.line_term.as_byte();
+                let mut line = lines::locate(self.slice, line_term, mat);
                 let range = Range::new(self.core.pos(), line.start());
-                self.advance(&line);
+                self.advance(&mat);
+                // A subsequent match may begin on the last line of this
+                // match and extend beyond it. Its lines are matching lines
+                // too, so they must not be reported as part of the next
+                // inverted match.
+                while self.core.pos() < line.end() {
+                    match self.find()? {
+                        Some(next) if next.start() < line.end() => {
+                            let next_line =
+                                lines::locate(self.slice, line_term, next);
+                            if next_line.end() > line.end() {
+                                line = line.with_end(next_line.end());
+                            }
+                            self.advance(&next);
+                        }
+                        _ => {
+                            // Nothing else starts on these lines.
+                            self.core.set_pos(line.end());
+                            break;
+                        }
+                    }
+                }
                 range
             }
         };
